@@ -200,6 +200,20 @@ theorem C02_policy_stale_cas (p : Policy) (now : Nat) (k : Key) (r old : Record)
   rw [MemStore.set_mismatch _ now k r old hc h1 hne]
   exact ⟨rfl, h1⟩
 
+/-- **… and so does a delete behind the policy**: with a CAS that is neither 0 nor the item's current one the answer is
+    'key exists' and nothing changes — neither the store nor the accounting; with CAS 0 or the current CAS the item is
+    removed and exactly its bytes are given back -/
+theorem C02_policy_delete_cas_iff (p : Policy) (k : Key) (cas : Nat) (x : Record) (hl : p.inner.mem.lookup k = some x) :
+    (¬ (cas = 0 ∨ x.header.cas = cas) → p.delete k cas = (p, .error .keyExists)) ∧
+    ((cas = 0 ∨ x.header.cas = cas) →
+      (p.delete k cas).2 = .ok x ∧ (p.delete k cas).1.inner.mem.lookup k = none ∧
+      (p.delete k cas).1.usage = wsub p.usage x.len) := by
+  constructor
+  · intro h
+    simp [Policy.delete, delete_mismatch p.inner k cas x hl h]
+  · intro h
+    simp [Policy.delete, delete_ok p.inner k cas x hl h, Mem.lookup_erase_self]
+
 /-- non-vacuity: limit 60, an item of 25 bytes stored with CAS 1, a 50-byte store with the stale CAS 7 that evicts
     nothing it addresses (empty victim tape) -/
 example : ((({ inner := ⟨[([1], ⟨⟨0, 1, 0, 0⟩, [65]⟩)], 2⟩, usage := 25, limit := 1000 } : Policy).set 0 [1]
@@ -217,3 +231,4 @@ end Memc
 #print axioms Memc.C02_unconditional_store_is_fresh
 #print axioms Memc.evictLoop_lookup_of_not_victim
 #print axioms Memc.C02_policy_stale_cas
+#print axioms Memc.C02_policy_delete_cas_iff
